@@ -38,6 +38,9 @@ func allInstances() []*Instance {
 	regC19(add, p)
 	regC03(add, p)
 	regC18(add, p)
+	regC20(add, p)
+	regC20b(add, p)
+	regC20c(add, p)
 	regC02(add, p)
 	regC11(add, p)
 	regC12(add, p)
@@ -496,6 +499,36 @@ func regC18(add addFn, p pFn) {
 	add(&Instance{Property: "C18", Name: "do-POST-getbody-307-len3", Entry: "spnego.VH_C18_Do", Params: p("len", 3, "method", 2, "body", 2, "spn", 0, "early", 0, "etype", 18, "keylen", 32, "kinds", 9, "getbody", 1),
 		Stubs: stubs, Replay: "stubbed", Tier: "thorough", TimeoutS: 3000, Reach: []string{"returned", "body-read", "challenged"},
 		Bound: "scripts of length 3 + tail over the alphabet plus 307-same-host; POST with GetBody"})
+}
+
+func regC20(add addFn, p pFn) {
+	add(&Instance{Property: "C20", Name: "keytab-surfaces", Entry: "keytab.VH_C20_KeytabSurfaces", Params: p("keylen", 16), Stubs: []string{"leakcheck"},
+		Reach: []string{"parse-error", "parsed"}, Bound: "one entry, 16 secret key bytes; JSON, lookup error, and the parse error of the file truncated at EVERY offset"})
+}
+
+func regC20b(add addFn, p pFn) {
+	for t, n := range []string{"Ticket", "APReq", "ASRep", "TGSRep", "KRBPriv", "TicketSequence"} {
+		add(&Instance{Property: "C20", Name: "marshal-after-decrypt-" + n, Entry: "messages.VH_C20_MarshalAfterDecrypt", Params: p("type", t), Stubs: []string{"leakcheck"},
+			Reach: []string{"encoded"}, Bound: n + " holding its decrypted part (secret session key / subkey / user data of 16 bytes) is re-encoded"})
+	}
+}
+
+func regC20c(add addFn, p pFn) {
+	for _, v := range []int{3, 4} {
+		add(&Instance{Property: "C20", Name: "ccache-parse-errors-v" + itoa(v), Entry: "credentials.VH_C20_CCacheParseErrors", Params: p("version", v), Stubs: []string{"leakcheck"}, OnlyAsserts: true,
+			Reach: []string{"returned"}, Bound: "a version " + itoa(v) + " credential cache with one credential holding a 16-byte secret key, truncated at EVERY offset; parser panics are C04's subject and end the path here"})
+	}
+	add(&Instance{Property: "C20", Name: "credentials-surfaces", Entry: "credentials.VH_C20_Credentials", Stubs: []string{"leakcheck"},
+		Reach: []string{"dumped"}, Bound: "credentials with an 8-byte secret password and a keytab with a 16-byte secret key: JSON, gob, json.Marshal of the key and of the keytab"})
+	for c, n := range []string{"password", "keytab"} {
+		add(&Instance{Property: "C20", Name: "client-diagnostics-" + n, Entry: "client.VH_C20_ClientDiagnostics", Params: p("creds", c, "login", 0), Stubs: []string{"leakcheck", "randstub"},
+			Reach: []string{"printed"}, Bound: "client with a secret " + n + ", a TGT session and a cached ticket with secret session keys: Print, Diagnostics, log lines"})
+		for _, k := range [][3]int{{0, 0, 0}, {1, 6, 0}, {1, 14, 0}, {2, 0, 0}} {
+			add(&Instance{Property: "C20", Name: "client-exchange-errors-" + n + "-kdc" + itoa(k[0]) + "-code" + itoa(k[1]), Entry: "client.VH_C20_ClientDiagnostics", Params: p("creds", c, "login", 1, "kdc", k[0], "code", k[1], "maxseq", 1, "maxstr", 1),
+				Stubs: []string{"leakcheck", "randstub", "kdcstub", "asn1havoc", "decryptstub", "lineartime"}, Replay: "stubbed", TimeoutS: 600,
+				Reach: []string{"printed", "exchanged"}, Bound: "as above, then Login and GetServiceTicket against a KDC that is unreachable (kdc0), answers KRB-ERROR code (kdc1) or undecodable bytes (kdc2): returned errors and log lines"})
+		}
+	}
 }
 
 func regC19(add addFn, p pFn) {
